@@ -1,8 +1,8 @@
 package runinproc
 
 import (
-	"github.com/FollowTheProcess/spok/file"
 	"fmt"
+	"github.com/FollowTheProcess/spok/file"
 	"os"
 	"sort"
 	"strings"
@@ -14,7 +14,7 @@ import (
 // GraphCase is a dependency graph written as a spokfile plus a request list.
 type GraphCase struct {
 	// Reuse: the repetitions run the same loaded SpokFile again instead of loading the text anew
-	Reuse bool `json:"reuse,omitempty"`
+	Reuse   bool     `json:"reuse,omitempty"`
 	N       int      `json:"n"`
 	Edges   [][2]int `json:"edges"`              // [i,j]: task i depends on task j
 	Dup     []int    `json:"dup,omitempty"`      // tasks defined a second time
